@@ -34,7 +34,8 @@ def replay_roundtrip(prop_id, seed, n):
 
     logging.disable(logging.CRITICAL)
     from simkit import runner
-    from simkit.engine import generate_and_run, replay
+    from simkit.engine import execute as generate_and_run
+    from simkit.engine import execute_replay as replay
 
     prop = runner.load_prop(prop_id)
     bad = 0
